@@ -73,8 +73,8 @@ pub fn gen(rng: &mut Prng) -> Cfg {
         "aggressive" => Backoff::Exp(50_000),
         "conservative" => Backoff::Exp(500_000),
         _ => match rng.below(6) {
-            0 => Backoff::Fixed(*rng.pick(&[0u64, 1000, 10_000])),
-            1 => Backoff::Exp(*rng.pick(&[1000u64, 5000])),
+            0 => Backoff::Fixed(*rng.pick(&[0u64, 1000, 10_000, 900, 250])),
+            1 => Backoff::Exp(*rng.pick(&[1000u64, 5000, 300])),
             2 => Backoff::ExpCapped(2000, *rng.pick(&[1.5, 2.0, 3.0]), *rng.pick(&[3000u64, 10_000])),
             3 => Backoff::Jitter(4000, *rng.pick(&[0.0, 0.5, 1.0])),
             4 => Backoff::Custom,
@@ -145,7 +145,7 @@ fn interval_fn(b: &Backoff) -> Arc<dyn IntervalFunction> {
         Backoff::Exp(us) => Arc::new(ExponentialBackoff::new(Duration::from_micros(*us))),
         Backoff::ExpCapped(us, m, cap) => Arc::new(ExponentialBackoff::new(Duration::from_micros(*us)).multiplier(*m).max_interval(Duration::from_micros(*cap))),
         Backoff::Jitter(us, f) => Arc::new(ExponentialRandomBackoff::new(Duration::from_micros(*us), *f).max_interval(Duration::from_micros(20_000))),
-        Backoff::Custom => Arc::new(FnInterval::new(|a: usize| Duration::from_micros([7000u64, 0, 3000, 1000, 9000][a % 5]))),
+        Backoff::Custom => Arc::new(FnInterval::new(|a: usize| Duration::from_micros([7000u64, 0, 3000, 1000, 9000, 400][a % 6]))),
     }
 }
 
